@@ -214,6 +214,32 @@ def check(ctx):
     ctx.rule("C04.R7", "a method / property registered as serialized method or serializer is invoked through the instance, by name: an override in a subclass is what gets serialized", floor=3)
     late_binding_rule(ctx, "C04.R7")
 
+    # ---------------- R11: every declaration form of a serialized method reaches the registry
+    ctx.rule("C04.R11", "method_registerer (behind @serialized, @resolver, ...): a method declared in a class body is registered when the class is created (descriptor __set_name__), any other function is registered at once under the owner given explicitly, else the class of the method, else the class of its first parameter - on every non-raising path", floor=3)
+    mr = model.func("apischema.methods.method_registerer")
+    dec = mr.nested.get("decorator")
+    ctx.require(dec is not None, "method_registerer.decorator vanished")
+    regs11 = [c for c in ast.walk(dec.node) if isinstance(c, ast.Call) and isinstance(c.func, ast.Name) and c.func.id == mr.params[2]]
+    in_set_name = [c for c in regs11 if any(isinstance(f_, ast.FunctionDef) and f_.name == "__set_name__" and any(x is c for x in ast.walk(f_)) for f_ in ast.walk(dec.node))]
+    direct = [c for c in regs11 if c not in in_set_name]
+    ctx.check(len(in_set_name) == 1 and norm(in_set_name[0].args[0]) == f"method_wrapper({dec.params[0]})" and [norm(a) for a in in_set_name[0].args[1:]] == ["owner", "name"], "C04.R11", f"{mr.qualname}:class-body", None,
+              "a method decorated inside a class body is no longer registered by the descriptor's __set_name__ with (wrapped method, owner class, attribute name)", mr, in_set_name[0] if in_set_name else dec.node, detail="register(method_wrapper(method), owner, name) in __set_name__")
+    ctx.check(len(direct) == 1, "C04.R11", f"{mr.qualname}:function-form", None,
+              "a function decorated outside a class body (`@serialized def area(r: Rectangle)`, `serialized(owner=Cls)(f)`) is not registered: it silently never appears in the serialized object nor in the schema",
+              mr, dec.node, detail="register(method, owner2, method.__name__)")
+    if len(direct) == 1:
+        from ..visitors import falls_off
+        # the direct registration is reached on every non-raising path of the else branch: it is a top-level statement of that branch
+        par11 = {c_: p_ for p_ in ast.walk(dec.node) for c_ in ast.iter_child_nodes(p_)}
+        st11 = direct[0]
+        while not isinstance(st11, ast.stmt):
+            st11 = par11[st11]
+        holder = par11.get(st11)
+        ctx.check(isinstance(holder, ast.If) and st11 in holder.orelse, "C04.R11", f"{mr.qualname}:unconditional", None, "the registration of the function form is conditional inside its branch", mr, st11, detail="top-level statement of the non-class-body branch")
+        owners = [norm(a.value) for a in ast.walk(dec.node) if isinstance(a, ast.Assign) and norm(a.targets[0]) == norm(direct[0].args[1])]
+        ctx.check(any(v == "owner" for v in owners) and any("method_class(" in v for v in owners) and any("hints[" in v for v in owners), "C04.R11", f"{mr.qualname}:owner", None,
+                  f"the owner of a function-form method is resolved from {owners}: expected the explicit owner, then the class defining the method, then the class of the first parameter", mr, direct[0], detail="owner -> method_class(method) -> type of the first parameter")
+
     # ---------------- R10: every method converter is late-bound, whatever the way it was declared
     ctx.rule("C04.R10", "resolve_conversion wraps every converter that is a method with method_wrapper (lookup of the method on the instance, by name) - also when the conversion states its source explicitly: an override of the method in a subclass is what serializes the subclass", floor=1)
     rc10 = model.func("apischema.conversions.conversions.resolve_conversion")
@@ -373,6 +399,8 @@ def passthrough_rule(ctx):
 
 
 def mutants(mb):
+    mb.add_text("function-form-not-registered", "apischema/methods.py", "            register(method, owner2, method.__name__)\n", "", "C04.R11", "function-form")
+    mb.add_text("function-form-owner-not-inferred", "apischema/methods.py", "                    owner2 = get_origin_or_type2(hints[next(iter(hints))])\n", "                    owner2 = None\n", "C04.R11", "owner")
     mb.add_text("method-converter-wrapped-only-without-source", "apischema/conversions/conversions.py", "        if conversion.source is None:\n            conversion = replace(conversion, source=method_class(conversion.converter))\n        conversion = replace(conversion, converter=method_wrapper(conversion.converter))\n", "        if conversion.source is None:\n            conversion = replace(conversion, source=method_class(conversion.converter))\n            conversion = replace(conversion, converter=method_wrapper(conversion.converter))\n", "C04.R10", "wrap")
     mb.add_text("is-union-of-not-annotated-transparent", "apischema/utils.py", "    return tp == of or (is_union(get_origin_or_type2(tp)) and of in get_args2(tp))\n", "    return tp == of or (is_union(get_origin_or_type(tp)) and of in get_args(tp))\n", "C04.R9", "is_union_of")
     mb.add_text("skip-own-metadata-only", "apischema/objects/fields.py", "        return self.full_metadata.get(SKIP_METADATA, SkipMetadata())\n", "        return self.metadata.get(SKIP_METADATA, SkipMetadata())\n", "C04.R8", "SKIP_METADATA")
